@@ -101,6 +101,10 @@ func runC16(ctx *Ctx) {
 		runC16Merge(ctx)
 		return
 	}
+	if r.Intn(6) == 0 {
+		runC16CLI(ctx)
+		return
+	}
 	in := &c16Input{FailAt: -1}
 	nb := 2 + r.Intn(12)
 	if ctx.Thorough() && r.Intn(4) == 0 {
@@ -140,6 +144,14 @@ func runC16(ctx *Ctx) {
 func corpusC16(ctx *Ctx, op string, raw json.RawMessage) {
 	if op == "merge" {
 		corpusC16Merge(ctx, raw)
+		return
+	}
+	if op == "ingest-cli" {
+		var in c16CLIInput
+		if err := json.Unmarshal(raw, &in); err != nil {
+			panic(err)
+		}
+		ctx.Emit("ingest-cli", &in, c16CLIRun(&in), true, "cli", "corpus")
 		return
 	}
 	var in c16Input
